@@ -39,7 +39,8 @@ def register(prop):
          assumptions=["a decryption counts only if its key stays installed for its whole duration (RemoveKey of such a key is skipped by the executor)"])
 
     prop("C01", [dict(scn="C01", quick=20000, thorough=1500000, wall_quick=100, wall_thorough=1500), dict(scn="C02I", quick=800, thorough=60000, wall_quick=60, wall_thorough=600, only=["rank-regression", "record-vanished"]),
-                 dict(scn="C06I", quick=1500, thorough=100000, wall_quick=40, wall_thorough=400, only=["refuted-peer-killed-by-stale-timeout"])],
+                 dict(scn="C06I", quick=1500, thorough=100000, wall_quick=40, wall_thorough=400, only=["refuted-peer-killed-by-stale-timeout"]),
+                 dict(scn="C01L", quick=2500, thorough=150000, wall_quick=50, wall_thorough=600, only=["claims-not-linearizable", "table-corrupt", "panic", "claim-call-hung"])],
          "bench mode: one real node, prior view of member x built from real claims (absent/alive/suspect/dead/left x incarnation in {0,1,2,5,2^31,2^32-3} x address x age vs "
          "DeadNodeReclaimTime), then 1-12 claims (alive/suspect/dead/leave/push-pull entries in all four states; incarnation base-2..base+2; same/other address/port; "
          "meta; valid/short/invalid version vectors; senders incl. the observer and x) delivered by direct call, UDP packet, inside a compound, compressed(+CRC) through the "
@@ -47,7 +48,11 @@ def register(prop):
          "both a stale and a non-stale claim; distinct = distinct (prior, claim sequence) tuples. "
          "C02I (cluster mode): the node's own record under UpdateNode raced by forged suspect/dead/stale-alive claims about itself, interleaved by the scheduler at the "
          "update/alive/suspect/dead yield sites, with the per-step rank-monotonicity monitor on every record (own record included). "
-         "C06I (bench): a suspicion timeout whose validation has passed, descheduled before it acts, against a refutation at a higher incarnation: the stale suspicion must not kill the refuted peer",
+         "C06I (bench): a suspicion timeout whose validation has passed, descheduled before it acts, against a refutation at a higher incarnation: the stale suspicion must not kill the refuted peer. "
+         "C01L (bench): 2-3 goroutines apply 1-2 alive/suspect/dead claims each about one member (prior view absent/alive/suspect/dead/left) to one node concurrently, interleaved at the entry of "
+         "aliveNode/suspectNode/deadNode and inside every user callback made without the node lock (AliveDelegate, EventDelegate); linearizability with the library itself as sequential "
+         "specification: record, Members(), queued broadcast, timer, conflicts and event log must equal those of one of the <=6 merges applied serially to a fresh instance; member-table "
+         "structure (one list slot per map entry)",
          assumptions=["claims about the observer itself are C02's subject and not generated here"])
 
     prop("C04", [dict(scn="C04", quick=300, thorough=30000, wall_quick=120, wall_thorough=1800)],
@@ -63,10 +68,12 @@ def register(prop):
          "the node and all peers show the owner's latest metadata within the budget; " + FP,
          assumptions=["W = 3*B(C03) + K*PushPullInterval + GossipToTheDeadTime with ((n-2)/(n-1))^K < 1e-12 (random peer selection makes W a budget, not a protocol constant)"])
     prop("C07", [dict(scn="C07", quick=150, thorough=8000, wall_quick=120, wall_thorough=2400), dict(scn="C04", quick=100, thorough=5000, wall_quick=60, wall_thorough=900),
-                 dict(scn="C02I", quick=1500, thorough=100000, wall_quick=60, wall_thorough=600, only=["event-pattern", "event-members-mismatch", "event-set-mismatch", "event-concurrent"])],
+                 dict(scn="C02I", quick=1500, thorough=100000, wall_quick=60, wall_thorough=600, only=["event-pattern", "event-members-mismatch", "event-set-mismatch", "event-concurrent"]),
+                 dict(scn="C01L", quick=2500, thorough=150000, wall_quick=50, wall_thorough=600, only=["events-not-serial", "table-corrupt", "event-concurrent", "claims-not-linearizable"])],
          "the fault-rich cluster histories of C05 (crash/restart/leave/partitions/loss) and the healthy histories of C04 with a recording EventDelegate on every node: "
          "per-member pattern (join update* leave)*, replay of the log == set captured inside each callback (under the node lock) == Members() at every scheduler step "
-         "incl. meta, callbacks never overlap; non-trivial as in C05/C04. C02I: UpdateNode raced by accusations about the node: its own metadata in Members() changes only with an update event; " + FP)
+         "incl. meta, callbacks never overlap; non-trivial as in C05/C04. C02I: UpdateNode raced by accusations about the node: its own metadata in Members() changes only with an update event. "
+         "C01L: concurrent claims about one member from 2-3 goroutines: the event log equals that of a sequential order of the claims (no double join, no join for a record Members() never shows); " + FP)
 
     prop("C02", [dict(scn="C02", quick=20000, thorough=1500000, wall_quick=100, wall_thorough=1500), dict(scn="C02I", quick=1500, thorough=150000, wall_quick=90, wall_thorough=1200, only=["self-not-alive", "incarnation-decreased", "rank-regression", "event-pattern", "event-members-mismatch", "event-set-mismatch", "event-concurrent"])],
          "bench mode: one real node accused by puppets: sequences of 1-10 suspect/dead/alive-about-self/push-pull entries (all four states) at incarnation own-1, own, own+1, "
